@@ -189,10 +189,11 @@ package varmq
 // otherwise the entry's job is either skipped because it is already closed (nothing dispatched) or marked processing, given the
 // acknowledgement id of this delivery and handed to exactly one pool node -- after all of that bookkeeping.
 //@ func worker.processNextJob
-//@   props C01 C02 C09 C10 C11 C12 C16
-//@   requires PoolOK(w) && QM(w) && w.curProcessing < MaxUint32
+//@   props C01 C02 C09 C10 C11 C12 C16 C06
+//@   requires PoolOK(w) && QM(w) && w.curProcessing < MaxUint32 && w.waiters != nil
+//@   requires forall k int {@sumLen(w.queues.Manager.items, k)} :: 0 <= k && k <= len(w.queues.Manager.items) ==> @sumLen(w.queues.Manager.items, k) <= MaxInt
 //@   requires forall i int :: 0 <= i && i < len(w.queues.Manager.items) ==> $lenOf(w.queues.Manager.items[i]) >= 0 && w.queues.Manager.items[i] != nil
-//@   modifies w.queues.Manager.roundRobinIndex, $lenOf, $deq, w.curProcessing, $jstatus, $jackid, $jqueue, $alloc, $spawned["pool.Node.Serve"], w.$nodes, w.$dispatched,
+//@   modifies w.queues.Manager.roundRobinIndex, $lenOf, $deq, w.curProcessing, $jstatus, $jackid, $jqueue, $alloc, $spawned["pool.Node.Serve"], w.$nodes, w.$dispatched, $broadcasts[w.waiters],
 //@            linkedlist.Node.next, linkedlist.Node.prev, w.pool.List.len, w.pool.List.$in, key CH:sent<, key CH:rcvd<, key CHV:<
 //@   ensures [error]   result != nil ==> w.curProcessing == old(w.curProcessing) && w.$dispatched == old(w.$dispatched)
 //@   ensures [step]    result == nil ==> (w.$dispatched == old(w.$dispatched) + 1 && w.curProcessing == old(w.curProcessing) + 1)
@@ -203,6 +204,12 @@ package varmq
 //@   ensures [pool]    PoolOK(w) && QM(w)
 //@   ensures [lens]    forall q ref {$lenOf(q)} :: $lenOf(q) == old($lenOf(q)) || ($lenOf(q) == old($lenOf(q)) - 1 && old($lenOf(q)) > 0)
 //@   ensures [queues]  w.queues.Manager.items == old(w.queues.Manager.items) && (forall i int :: 0 <= i && i < len(w.queues.Manager.items) ==> w.queues.Manager.items[i] == old(w.queues.Manager.items[i]))
+// C06 (finding F5): an entry consumed without being dispatched (closed job, undecodable or foreign entry) may have been the last pending
+// one; the barrier waiters are released exactly as after a completed job, or they would sleep on with nothing pending and nothing in flight.
+//@   ensures [wake-consumed@C06] w.$dispatched == old(w.$dispatched) && (exists q ref :: $deq(q) == old($deq(q)) + 1) && w.curProcessing == 0
+//@                         && (w.status == paused || (w.status == running && @sumLen(w.queues.Manager.items, len(w.queues.Manager.items)) == 0))
+//@                         ==> $broadcasts[w.waiters] == old($broadcasts[w.waiters]) + 1
+//@   ghost before call varmq.worker.releaseWaiters: assume forall k int {@sumLen(w.queues.Manager.items, k)} :: 0 <= k && k <= len(w.queues.Manager.items) ==> @sumLen(w.queues.Manager.items, k) <= MaxInt
 //@   assert [not-closed]      before call invoke.changeStatus: $jstatus(j) != closed
 //@   assert [bookkeeping]     before call varmq.worker.sendToNextChannel: $jstatus(j) == processing && $jackid(j) == ackId && w.curProcessing == old(w.curProcessing) + 1
 //@   assert [ackid-of-this]   before call varmq.worker.sendToNextChannel: $impl(IAcknowledgeable, queue) || ackId == ""
@@ -238,14 +245,15 @@ package varmq
 // pending. Every dispatch decision re-reads status, in-flight count, limit and backlog (nothing is cached across a dispatch), errors are
 // reported without blocking and do not end the loop; the goroutine returns only when its signal channel is closed.
 //@ func worker.goEventLoop$1
-//@   props C02 C03 C09 C11 C12
-//@   requires signal != nil && $deref(w) != nil && PoolOK($deref(w)) && QM($deref(w)) && ChanOK($deref(w).errorChan)
+//@   props C02 C03 C09 C11 C12 C06
+//@   requires signal != nil && $deref(w) != nil && PoolOK($deref(w)) && QM($deref(w)) && ChanOK($deref(w).errorChan) && $deref(w).waiters != nil
 //@   requires forall i int :: 0 <= i && i < len($deref(w).queues.Manager.items) ==> $deref(w).queues.Manager.items[i] != nil
 //@   modifies $chan(signal), $open(signal), $chan($deref(w).errorChan), $deref(w).queues.Manager.roundRobinIndex, $lenOf, $deq, $deref(w).curProcessing, $jstatus, $jackid, $jqueue, $alloc,
 //@            $spawned["pool.Node.Serve"], $deref(w).$nodes, $deref(w).$dispatched, linkedlist.Node.next, linkedlist.Node.prev, $deref(w).pool.List.len, $deref(w).pool.List.$in,
-//@            key CH:sent<, key CH:rcvd<, key CHV:<
+//@            key CH:sent<, key CH:rcvd<, key CHV:<, $broadcasts[$deref(w).waiters]
 //@   requires forall q ref {$lenOf(q)} :: $lenOf(q) >= 0
 //@   ensures [exit] !$open(signal)
+//@   ghost before call varmq.worker.processNextJob: assume forall k int {@sumLen($deref(w).queues.Manager.items, k)} :: 0 <= k && k <= len($deref(w).queues.Manager.items) ==> @sumLen($deref(w).queues.Manager.items, k) <= MaxInt
 //@   ghost before call helpers.Manager.Len: assume forall k int {@sumLen($deref(w).queues.Manager.items, k)} :: 0 <= k && k <= len($deref(w).queues.Manager.items) ==> @sumLen($deref(w).queues.Manager.items, k) <= MaxInt
 //@   loop 1: invariant [outer] PoolOK($deref(w)) && QM($deref(w)) && ChanOK($deref(w).errorChan) && (forall q ref {$lenOf(q)} :: $lenOf(q) >= 0) && (forall i int :: 0 <= i && i < len($deref(w).queues.Manager.items) ==> $deref(w).queues.Manager.items[i] != nil)
 //@   loop 2: invariant [inner] PoolOK($deref(w)) && QM($deref(w)) && ChanOK($deref(w).errorChan) && (forall q ref {$lenOf(q)} :: $lenOf(q) >= 0) && (forall i int :: 0 <= i && i < len($deref(w).queues.Manager.items) ==> $deref(w).queues.Manager.items[i] != nil)
